@@ -227,7 +227,8 @@ func opLA(f []string) string {
 	if res != "ok" {
 		return res
 	}
-	return fmt.Sprintf("ok %08x | %s", w, laDecode(w))
+	// raw abi.RegType numbers on both sides: slots holding plain numbers (code, hint, msb...) have no register class
+	return fmt.Sprintf("ok %08x | %s | I %d %d %d %d", w, laDecode(w), regs[0], regs[1], regs[2], regs[3])
 }
 
 func laDecode(w uint32) string {
@@ -236,7 +237,7 @@ func laDecode(w uint32) string {
 		if err != nil || a == nil {
 			return "Derr"
 		}
-		return fmt.Sprintf("D %s %s %s %s %s %d", laByAs[int(as)], laRegStr(a.Rd), laRegStr(a.Rs1), laRegStr(a.Rs2), laRegStr(a.Rs3), a.Imm)
+		return fmt.Sprintf("D %s %d %d %d %d %d", laByAs[int(as)], a.Rd, a.Rs1, a.Rs2, a.Rs3, a.Imm)
 	})
 }
 
